@@ -123,6 +123,24 @@ def run(tier, seed):
                 stored = new
         chk.seen(("hist", tuple(h)))
     chk.sample({"history_of_assertion_indices": hists[0], "counters_of_assertions": ctrs})
+    # counters whose four bytes, together with what follows them in the authenticator data (the AAGUID of an attested block), spell a byte pattern that means something
+    # elsewhere (the known-malformed EdDSA key header; CBOR map headers): the counter is bytes 33-36, whatever they look like
+    import hashlib as _hl
+    MARK = bytes.fromhex("a301634f4b500327206745643235353139")
+    for lead in (MARK, bytes.fromhex("a401634f4b500327206745643235353139"), bytes.fromhex("a5010203262001215820") + bytes(7)):
+        c = int.from_bytes(lead[:4], "big")
+        cr = authsim.Cred("ES256-P256")
+        for flags in (0x45, 0xC5):
+            ad = authsim.authdata("example.com", flags, c, aaguid=lead[4:17] + bytes(3), cred_id=b"credential-id-1", cose_bytes=cr.cose_bytes, ext=(b"\xa0" if flags & 0x80 else None))
+            cdj = authsim.client_data("webauthn.get", b"marker-counter-challenge", "https://example.com")
+            a = authsim.Assertion(cr, b"credential-id-1", cdj, ad, cr.sign(ad + _hl.sha256(cdj).digest()))
+            for s_stored in (c - 1, c, c + 1, c + 2 ** 24 - 1, c + 2 ** 24, 0, c - 2 ** 24):
+                if not 0 <= s_stored < 2 ** 32:
+                    continue
+                pol = impl.AuthPolicy(b"marker-counter-challenge", "example.com", "https://example.com", cr.cose_bytes, s_stored, False)
+                il, ml = B.run_case(pol, a, ("record", "dict")[s_stored % 2], "accept" if c > s_stored else "reject", f"counter s={s_stored} c={c} (bytes 33.. spell {lead[:4].hex()}...) flags={flags:#x}")
+                if il.startswith("OK") and fw.rd_i(il.split()[2]) != c:
+                    chk.violation(f"reported new counter {fw.rd_i(il.split()[2])} != c={c}", f"new-count pattern-counter s={s_stored}", {"stored": s_stored, "c": c, "impl": il, "authenticator_data_hex": ad.hex()})
     # two ceremonies on two threads, one running to completion between every two lines of the other (fw.interleaved): the rule is applied to each ceremony's OWN pair (s, c)
     pairs_ab = [((5, 5), (0, 1)), ((0, 1), (5, 5)), ((9, 3), (3, 9)), ((3, 9), (9, 3)), ((0, 0), (7, 7)), ((7, 7), (0, 0)), ((2 ** 32 - 1, 0), (0, 2 ** 32 - 1)), ((1, 2), (2, 1))]
     for (sa, ca), (sb, cb) in pairs_ab:
